@@ -484,8 +484,10 @@ impl ExternalManifestStore for ExtClient {
 
 #[derive(Clone)]
 pub struct Snap {
+    /// memory worlds: object path -> bytes; local worlds: path relative to the env's directory
     pub objs: BTreeMap<String, Bytes>,
     pub ext: BTreeMap<(String, u64), String>,
+    pub local: bool,
 }
 
 pub struct Env {
@@ -494,6 +496,9 @@ pub struct Env {
     pub ext: Arc<ExtShared>,
     pub lock: Arc<LockShared>,
     pub lock_spins: u32,
+    /// Some = the backing store is the local filesystem under this directory (Lance then takes its
+    /// local fast paths, e.g. `current_manifest_local`); the table lives at `<dir>/t`
+    pub local_dir: Option<Arc<tempfile::TempDir>>,
 }
 
 /// One "process".
@@ -511,24 +516,101 @@ impl Env {
             ext: ExtShared::new(),
             lock: Arc::new(LockShared::default()),
             lock_spins: 0,
+            local_dir: None,
         }
     }
-    pub fn with_world(kind: HandlerKind, world: Arc<World>) -> Self {
-        Self {
+    /// Environment whose bucket is a fresh directory under /tmp on the local filesystem.
+    pub fn new_local(kind: HandlerKind) -> std::io::Result<Self> {
+        let dir = tempfile::Builder::new().prefix("e_crash-fs-").tempdir_in("/tmp")?;
+        Ok(Self {
             kind,
-            world,
+            world: World::with_backing(Arc::new(object_store::local::LocalFileSystem::new())),
             ext: ExtShared::new(),
             lock: Arc::new(LockShared::default()),
             lock_spins: 0,
+            local_dir: Some(Arc::new(dir)),
+        })
+    }
+    pub fn is_local(&self) -> bool {
+        self.local_dir.is_some()
+    }
+    /// URI of the table of this environment.
+    pub fn uri(&self) -> String {
+        match &self.local_dir {
+            None => "memory://t".to_string(),
+            Some(d) => format!("{}/t", d.path().display()),
+        }
+    }
+    /// Object-store path of the table root.
+    pub fn base(&self) -> String {
+        base_of(&self.uri())
+    }
+    fn dir_prefix(&self) -> Option<String> {
+        self.local_dir
+            .as_ref()
+            .map(|d| d.path().display().to_string().trim_matches('/').to_string())
+    }
+    /// Unlogged listing of every object of this environment.
+    pub async fn list_paths(&self) -> Vec<String> {
+        match self.dir_prefix() {
+            None => self.world.list_paths().await,
+            Some(prefix) => {
+                use futures::TryStreamExt;
+                let mut v: Vec<String> = self
+                    .world
+                    .backing
+                    .list(Some(&Path::from(prefix)))
+                    .try_collect::<Vec<_>>()
+                    .await
+                    .unwrap_or_default()
+                    .into_iter()
+                    .map(|m| m.location.to_string())
+                    .collect();
+                v.sort();
+                v
+            }
         }
     }
     pub async fn snapshot(&self) -> Snap {
-        Snap {
-            objs: self.world.snapshot().await,
-            ext: self.ext.snapshot(),
+        match self.dir_prefix() {
+            None => Snap {
+                objs: self.world.snapshot().await,
+                ext: self.ext.snapshot(),
+                local: false,
+            },
+            Some(prefix) => {
+                let mut objs = BTreeMap::new();
+                for p in self.list_paths().await {
+                    if let Some(b) = self.world.read(&p).await {
+                        let rel = p
+                            .strip_prefix(&prefix)
+                            .unwrap_or(&p)
+                            .trim_start_matches('/')
+                            .to_string();
+                        objs.insert(rel, b);
+                    }
+                }
+                Snap {
+                    objs,
+                    ext: self.ext.snapshot(),
+                    local: true,
+                }
+            }
         }
     }
     pub async fn restore(kind: HandlerKind, snap: &Snap) -> Self {
+        if snap.local {
+            let env = Self::new_local(kind).expect("tempdir for restore");
+            let root = env.local_dir.as_ref().unwrap().path().to_path_buf();
+            for (rel, b) in &snap.objs {
+                let f = root.join(rel);
+                if let Some(parent) = f.parent() {
+                    std::fs::create_dir_all(parent).expect("restore mkdir");
+                }
+                std::fs::write(&f, b).expect("restore write");
+            }
+            return env;
+        }
         let world = World::from_snapshot(&snap.objs).await;
         let ext = ExtShared::new();
         *ext.map.lock().unwrap() = snap.ext.clone();
@@ -538,6 +620,7 @@ impl Env {
             ext,
             lock: Arc::new(LockShared::default()),
             lock_spins: 0,
+            local_dir: None,
         }
     }
     /// A process with its own store handle, session and commit handler of the env's kind.
@@ -628,7 +711,7 @@ pub fn final_manifest_version(base: &str, path: &str) -> Option<u64> {
     }
 }
 
-/// `memory://name` -> `name`
+/// `memory://name` -> `name`; `/tmp/x/t` -> `tmp/x/t`
 pub fn base_of(uri: &str) -> String {
     uri.trim_start_matches("memory://")
         .trim_start_matches("file://")
@@ -923,7 +1006,9 @@ pub struct ObsExtra {
 
 /// What a freshly started process (`p` must have a fresh session and a clean store handle) sees.
 /// `Err` = the table exists but cannot be read back (that is a finding for the caller to judge).
-pub async fn observe(p: &Proc, world: &World, uri: &str) -> Result<(Obs, Option<ObsExtra>), String> {
+pub async fn observe(p: &Proc, env: &Env) -> Result<(Obs, Option<ObsExtra>), String> {
+    let uri_s = env.uri();
+    let uri = uri_s.as_str();
     let base = base_of(uri);
     let mut raw_final = vec![];
     let mut detached = vec![];
@@ -949,7 +1034,7 @@ pub async fn observe(p: &Proc, world: &World, uri: &str) -> Result<(Obs, Option<
         }
         raw_final.sort();
     };
-    let paths = world.list_paths().await;
+    let paths = env.list_paths().await;
     scan_listing(&paths, &mut raw_final, &mut detached, &mut staging, &mut other);
     let ds = match p.actor.open(uri).await {
         Ok(ds) => ds,
@@ -1007,7 +1092,7 @@ pub async fn observe(p: &Proc, world: &World, uri: &str) -> Result<(Obs, Option<
     let validate = ds.validate().await.map_err(|e| e.to_string());
     let refs = manifest_refs(&ds, &base).await?;
     // listing again: an external-store reader may have finalised a version while opening
-    let paths = world.list_paths().await;
+    let paths = env.list_paths().await;
     scan_listing(&paths, &mut raw_final, &mut detached, &mut staging, &mut other);
     Ok((
         Obs::Table {
@@ -1039,15 +1124,17 @@ pub enum Seen {
 
 pub const SIG_DETACHED_PANIC: &str = "reader-panics-resolving-latest-when-d-prefixed-file-is-listed-v2";
 
-pub async fn observe_guarded(p: &Proc, world: &World, uri: &str) -> Seen {
-    match guarded(observe(p, world, uri), 60).await {
+pub async fn observe_guarded(p: &Proc, env: &Env) -> Seen {
+    let uri_s = env.uri();
+    let uri = uri_s.as_str();
+    match guarded(observe(p, env), 60).await {
         Ok(Ok((o, x))) => Seen::Ok(o, x),
         Ok(Err(e)) => Seen::Unreadable(e),
         Err(GuardFail::Timeout) => Seen::Timeout,
         Err(GuardFail::Panic(msg)) => {
             // classify: V2-named manifests + a detached manifest in the listing + unwrap on None
             let base = base_of(uri);
-            let paths = world.list_paths().await;
+            let paths = env.list_paths().await;
             let mut detached = false;
             let mut v2 = false;
             let vdir = format!("{base}/_versions/d");
